@@ -83,6 +83,8 @@ def main():
         lines = [l for l in outc.splitlines() if l.startswith(("VIOLATION", "  key=", "KNOWN-FINDING", "PASS", "FAIL", "MACHINERY"))]
         res.update(check_rc=rcc, check_wall=round(time.time() - t0, 1), caught=(rcc == 1),
                    check_lines=[l[:240] for l in lines][:12])
+        if rcc not in (0, 1):
+            res["check_tail"] = [l[:300] for l in outc.splitlines() if not l.startswith("    ")][-14:]
     finally:
         sh("git -C /repo worktree remove --force %s" % work)
         shutil.rmtree(work, ignore_errors=True)
